@@ -292,6 +292,39 @@ def judge_e2e(binp, v, lines, mms, sc, clients, stmts, seed, stats):
         stats["confirmed"] += 1
 
 
+def binding_selftest(hlines, sc):
+    """DESIGN §9: a good recorded execution with (a) one corrupted field, (b) one dropped event must be rejected."""
+    # the first fault-free execution with >= 3 callbacks
+    start = None
+    for i, l in enumerate(hlines):
+        if l.startswith('{"ev":"reset"'):
+            e = json.loads(l)
+            j = i + 1
+            while j < len(hlines) and not hlines[j].startswith('{"ev":"reset"'):
+                j += 1
+            evs = [json.loads(x) for x in hlines[i:j]]
+            if e["p"]["n"] >= 257 and not e["case"]["kill"] and not e["p"]["iterErr"] and not e["p"]["cbErr"] \
+                    and not e["p"]["stallAt"] and evs[-1].get("cls") == "ok":
+                start = (i, j)
+                break
+    if start is None:
+        raise lib.Inconclusive("binding self-test: no fault-free multi-batch execution recorded")
+    good = hlines[start[0]:start[1]]
+    res = {}
+    for name, mut in (("good", lambda ev: ev),
+                      ("corrupt_first", lambda ev: [dict(x, first=x["first"] + 1, last=x["last"] + 1) if k == 2 else x for k, x in enumerate(ev)]),
+                      ("drop_callback", lambda ev: ev[:2] + ev[3:]),
+                      ("flip_more", lambda ev: [dict(x, more=not x["more"]) if k == 1 else x for k, x in enumerate(ev)])):
+        evs = mut([json.loads(x) for x in good])
+        p = os.path.join(sc, "selftest-%s.ndjson" % name)
+        lib.write_ndjson(p, evs)
+        _, mms, _ = validate(p)
+        res[name] = len(mms)
+    if res["good"] != 0 or not all(res[k] > 0 for k in ("corrupt_first", "drop_callback", "flip_more")):
+        raise lib.Inconclusive("binding self-test failed (mismatches per variant): %s" % res)
+    return res
+
+
 # ---------------------------------------------------------------- the check
 
 def check(tier):
@@ -408,6 +441,8 @@ def check(tier):
             extra["obs_spec_tightness"] = {"pipeline_outcomes": len(A), "observable_outcomes": len(Bs),
                                            "pipeline_only(cancelled, truncated final callback)": len(over), "observable_only": len(Bs - A),
                                            "observable_only_sample": [json.loads(x) for x in sorted(Bs - A)[:3]]}
+        if not quick:
+            extra["binding_selftest"] = binding_selftest(hlines, sc)
         rc = v.finish()
         if witness_hits == 0:
             lib.log("[C35] note: the witness of the known finding did not show the truncated result in 300 executions")
